@@ -214,6 +214,9 @@ unsafe impl lock_api::RawRwLockTimed for RawRwLock {
 
     #[inline]
     fn try_lock_shared_for(&self, timeout: Self::Duration) -> bool {
+        // under the deterministic scheduler a timed attempt is a try-lock: the holder may be
+        // descheduled for longer than any timeout (and the virtual clock stands still)
+        if let Some(ok) = vsched::try_acquire(self as *const _ as usize, vsched::Mode::Shared) { if !ok { return false; } }
         let result = if self.try_lock_shared_fast(false) {
             true
         } else {
@@ -227,6 +230,9 @@ unsafe impl lock_api::RawRwLockTimed for RawRwLock {
 
     #[inline]
     fn try_lock_shared_until(&self, timeout: Self::Instant) -> bool {
+        // under the deterministic scheduler a timed attempt is a try-lock: the holder may be
+        // descheduled for longer than any timeout (and the virtual clock stands still)
+        if let Some(ok) = vsched::try_acquire(self as *const _ as usize, vsched::Mode::Shared) { if !ok { return false; } }
         let result = if self.try_lock_shared_fast(false) {
             true
         } else {
@@ -240,6 +246,9 @@ unsafe impl lock_api::RawRwLockTimed for RawRwLock {
 
     #[inline]
     fn try_lock_exclusive_for(&self, timeout: Duration) -> bool {
+        // under the deterministic scheduler a timed attempt is a try-lock: the holder may be
+        // descheduled for longer than any timeout (and the virtual clock stands still)
+        if let Some(ok) = vsched::try_acquire(self as *const _ as usize, vsched::Mode::Excl) { if !ok { return false; } }
         let result = if self
             .state
             .compare_exchange_weak(0, WRITER_BIT, Ordering::Acquire, Ordering::Relaxed)
@@ -257,6 +266,9 @@ unsafe impl lock_api::RawRwLockTimed for RawRwLock {
 
     #[inline]
     fn try_lock_exclusive_until(&self, timeout: Instant) -> bool {
+        // under the deterministic scheduler a timed attempt is a try-lock: the holder may be
+        // descheduled for longer than any timeout (and the virtual clock stands still)
+        if let Some(ok) = vsched::try_acquire(self as *const _ as usize, vsched::Mode::Excl) { if !ok { return false; } }
         let result = if self
             .state
             .compare_exchange_weak(0, WRITER_BIT, Ordering::Acquire, Ordering::Relaxed)
